@@ -156,9 +156,10 @@ def apply_op(w, op):
             lines = ["import numpy as np", "", "def recipe(field_indexes, box_array):", f'    """{" ".join(new_names)}"""']
             for var, i in zip("abc", rec["vars"]):
                 lines.append(f"    {var} = box_array[..., field_indexes[{m.fields[i % len(m.fields)]!r}]]")
-            comps = [EXPRS[e % len(EXPRS)] for e in rec["exprs"]]
+            from .c11 import cast_comps
+            comps = cast_comps([EXPRS[e % len(EXPRS)] for e in rec["exprs"]], rec.get("cast"))
             lines.append("    with np.errstate(all='ignore'):")
-            lines.append(f"        return {comps[0]} + 0.0" if ncomp == 1 else f"        return np.stack([{', '.join(comps)}], axis=-1)")
+            lines.append(f"        return {comps[0]}" + (" + 0.0" if not rec.get("cast") else "") if ncomp == 1 else f"        return np.stack([{', '.join(comps)}], axis=-1)")
             src_text = "\n".join(lines) + "\n"
             rfile = f"recipe_{len(w.items)}.py"
             with open(rfile, "w") as fh:
@@ -276,7 +277,8 @@ idx = st.integers(0, 30)
 sched = st.fixed_dictionaries(dict(exec=st.lists(st.lists(st.integers(0, 5), max_size=4), max_size=3),
                                    comp=st.lists(st.lists(st.integers(0, 5), max_size=4), max_size=3), lazy=st.booleans()))
 recipes = st.fixed_dictionaries(dict(exprs=st.lists(st.integers(0, len(EXPRS) - 1), min_size=1, max_size=2),
-                                     vars=st.lists(idx, min_size=3, max_size=3)))
+                                     vars=st.lists(idx, min_size=3, max_size=3),
+                                     cast=st.sampled_from([None, None, None, "bool", "int64", "float32"])))
 colander_ops = st.fixed_dictionaries(dict(op=st.just("colander"), src=idx, vars=st.lists(idx, min_size=1, max_size=4),
                                           limit=st.one_of(st.none(), st.integers(0, 3)),
                                           unknown_at=st.lists(idx, max_size=1)))
